@@ -124,17 +124,132 @@ def identity_oracle(ctx, cases, res_lines):
         ctx.hist["identity-oracle:checked"] += 1
 
 
-def run(ctx):
+def walk_opts(b):
+    """(kind, value) list of a TCP option area; value = int for MSS / WS, (ts1, ts2) for TS, None otherwise"""
+    out, i = [], 0
+    while i < len(b):
+        k = b[i]
+        if k == 0:
+            break
+        if k == 1:
+            out.append((1, None))
+            i += 1
+            continue
+        if i + 1 >= len(b) or b[i + 1] < 2:
+            break
+        ln = b[i + 1]
+        body = b[i + 2:i + ln]
+        if k == 2 and ln == 4:
+            out.append((2, struct.unpack("!H", body)[0]))
+        elif k == 3 and ln == 3:
+            out.append((3, body[0]))
+        elif k == 8 and ln == 10:
+            out.append((8, struct.unpack("!II", body)))
+        else:
+            out.append((k, None))
+        i += ln
+    return out
+
+
+def tcp_of(v, raw):
+    off = (raw[0] & 15) * 4 if v == "4" else 40
+    t = raw[off:]
+    hl = (t[12] >> 4) * 4
+    end = struct.unpack("!H", raw[2:4])[0] if v == "4" else 40 + struct.unpack("!H", raw[4:6])[0]
+    return t[:hl], raw[off + hl:end]
+
+
+def hint_oracle(ctx, cases, lines):
+    """the hint rules of C14, straight from the statement, on the bytes of base and output (independent of the Lean model)"""
     from ..runner import Failure
+    for c, line in zip(cases, lines):
+        f = line.split("\t")
+        bv, braw, hints, uptime, ov, oraw = f[2], bytes.fromhex(f[3]), f[4].split(","), f[7], f[9], bytes.fromhex(f[10])
+        sf = c["sig"].split(":")
+        qs = sf[6].split(",") if sf[6] else []
+        win_f, _, sc_f = sf[4].partition(",")
+        hi = [None if x == "-" else int(x) for x in hints]
+        bt, bpay = tcp_of(bv, braw)
+        ot, opay = tcp_of(ov, oraw)
+        oopts = walk_opts(ot[20:])
+        problems = []
+        final_syn = not (ot[13] & 0x10)
+        # MSS
+        n = int(win_f[4:]) if win_f.startswith("mss*") else None
+
+        def mss_ok(h):
+            return 0 <= h <= 65535 and (n is None or (h >= 100 and h * n <= 65535))
+        for k, v in oopts:
+            if k == 2 and v is not None:
+                if sf[3] != "*":
+                    if v != int(sf[3]):
+                        problems.append(f"MSS {v}: the signature fixes {sf[3]}")
+                elif hi[0] is not None and mss_ok(hi[0]):
+                    if v != hi[0]:
+                        problems.append(f"admissible MSS hint {hi[0]} not kept (MSS {v})")
+                elif hi[0] is not None and v == hi[0]:
+                    problems.append(f"inadmissible MSS hint {hi[0]} used")
+            if k == 3 and v is not None:
+                def ws_ok(h):
+                    return 0 <= h <= 255 and (("exws" in qs) == (h > 14))
+                if sc_f != "*":
+                    if v != int(sc_f):
+                        problems.append(f"scale {v}: the signature fixes {sc_f}")
+                elif hi[1] is not None and ws_ok(hi[1]):
+                    if v != hi[1]:
+                        problems.append(f"admissible scale hint {hi[1]} not kept (scale {v})")
+                elif hi[1] is not None and v == hi[1]:
+                    problems.append(f"inadmissible scale hint {hi[1]} used")
+            if k == 8 and v is not None:
+                t1, t2 = v
+                up = None if uptime in ("-", "") else int(uptime)
+                if "ts1-" in qs:
+                    if t1 != 0:
+                        problems.append("ts1- asked for, own timestamp non-zero")
+                elif up is not None and 0 < up < 2**32:
+                    if t1 != up:
+                        problems.append(f"uptime {up} not used (ts1 {t1})")
+                elif hi[2] is not None and 0 < hi[2] < 2**32:
+                    if t1 != hi[2]:
+                        problems.append(f"admissible own-timestamp hint {hi[2]} not kept (ts1 {t1})")
+                elif t1 == 0:
+                    problems.append("own timestamp zero without ts1-")
+                if final_syn:
+                    if "ts2+" in qs:
+                        if hi[3] is not None and 0 < hi[3] < 2**32:
+                            if t2 != hi[3]:
+                                problems.append(f"admissible peer-timestamp hint {hi[3]} not kept (ts2 {t2})")
+                        elif t2 == 0:
+                            problems.append("ts2+ asked for, peer timestamp zero")
+                    elif t2 != 0:
+                        problems.append("peer timestamp non-zero on a SYN without ts2+")
+                elif hi[3] is not None and 0 <= hi[3] < 2**32 and t2 != hi[3]:
+                    problems.append(f"echoed timestamp {hi[3]} of a SYN+ACK not kept (ts2 {t2})")
+        # window
+        if win_f == "*" and ot[14:16] != bt[14:16]:
+            problems.append("window of the base packet not kept with a '*' window")
+        # IPv4 id
+        if bv == "4":
+            bid, oid = struct.unpack("!H", braw[4:6])[0], struct.unpack("!H", oraw[4:6])[0]
+            free = ("df" in qs and "id+" in qs) or ("df" not in qs and "id-" not in qs)
+            if free and bid != 0 and oid != bid:
+                problems.append(f"IPv4 id {bid} of the base packet not kept (id {oid})")
+        # payload
+        if sf[7] == "*" and opay != bpay:
+            problems.append("payload not kept with payload class '*'")
+        if sf[7] == "+" and bpay and opay != bpay:
+            problems.append("existing payload not kept with payload class '+'")
+        ctx.hist["hint-oracle:checked"] += 1
+        if problems:
+            ctx.failures.append(Failure("property-failure", "impersonate_tcp broke the hint rules: " + "; ".join(problems[:3]) + f" (signature {c['sig']!r})",
+                                        op=line, extra={"sig": c["sig"], "stream": "hint-oracle"}))
+
+
+def run(ctx):
     cases = make_cases(ctx, ctx.n(9000, 200000))
-    before = len(ctx.failures)
     res = C05.run_cases(ctx, cases, "imp")
-    # in this check an unexplained run is a violation of C14 itself (the model is proved to follow C14's rules)
-    for f in ctx.failures[before:]:
-        if f.kind == "correspondence":
-            f.kind = "property-failure"
-            f.what = "the run does not follow the hint / identity rules of the property: " + f.what
-    # identity oracle on the explained outputs
+    # oracles on the outputs, independent of the Lean model: identity clauses and hint rules straight from the statement.
+    # A run the model cannot explain but on which both oracles pass is a broken correspondence, not a property failure.
     lines = [l for (l, a, b) in res]
     by_key = {}
     for c in cases:
@@ -143,6 +258,8 @@ def run(ctx):
     for l in lines:
         f = l.split("\t")
         cs.append(by_key.get((f[1], f[3], f[5], f[7])))
-    identity_oracle(ctx, [c for c in cs if c], [l for l, c in zip(lines, cs) if c])
+    pairs = [(c, l) for l, c in zip(lines, cs) if c]
+    identity_oracle(ctx, [c for c, l in pairs], [l for c, l in pairs])
+    hint_oracle(ctx, [c for c, l in pairs], [l for c, l in pairs])
     # non-trivial: explained runs whose base carried hints
     ctx.nontrivial = {l for l in ctx.nontrivial if "\t-,-,-,-\t" not in l}
